@@ -486,7 +486,8 @@ def run_history(seq, structure="r3c", from_file=True):
         kw = QUERY_ARGS.get(name)
         if kw is None or not hasattr(c, name):
             continue
-        state_before = (np.array(c.unit_cell.direct, float).copy(), c.space_group.choice, np.array(c.asymmetric_unit.positions, float).copy())
+        state_before = (np.array(c.unit_cell.direct, float).copy(), c.space_group.choice, np.array(c.asymmetric_unit.positions, float).copy(),
+                        [int(o.integer_code) for o in c.space_group.symmetry_operations], [int(e.atomic_number) for e in c.asymmetric_unit.elements])
         f = _fresh(c)
         try:
             def ask(obj):
@@ -501,7 +502,10 @@ def run_history(seq, structure="r3c", from_file=True):
             bad.append("step %d: %s differs from the answer of a freshly constructed crystal with the same cell, space group and asymmetric unit" % (step, name))
         if _reparse(name, got) != _reparse(name, again):
             bad.append("step %d: repeating %s gives a different answer" % (step, name))
-        if not (np.allclose(state_before[0], c.unit_cell.direct) and state_before[1] == c.space_group.choice and np.allclose(state_before[2], c.asymmetric_unit.positions)):
+        if not (np.array_equal(state_before[0], np.array(c.unit_cell.direct, float)) and state_before[1] == c.space_group.choice
+                and np.array_equal(state_before[2], np.array(c.asymmetric_unit.positions, float))
+                and state_before[3] == [int(o.integer_code) for o in c.space_group.symmetry_operations]
+                and state_before[4] == [int(e.atomic_number) for e in c.asymmetric_unit.elements]):
             bad.append("step %d: query %s modified the crystal's state" % (step, name))
     return bad
 
@@ -535,7 +539,12 @@ def run(ctx):
     c = Crystal.load("/repo/src/chmpy/tests/test_files/r3c_example.cif")
     c.symmetry_unique_molecules()
     ctx.fidelity_check("extracted caches exist on a real crystal after the producing queries", all(hasattr(c, x) for x in caches), str(caches))
-    ctx.fidelity_check("replay harness: a history of queries only is clean on the real code", not run_history(["unit_cell_atoms", "deepcopy", "unit_cell_molecules", "to_cif_string", "slab"]))
+    qonly = ["unit_cell_atoms", "deepcopy", "unit_cell_molecules", "to_cif_string", "slab", "symmetry_unique_molecules", "density", "to_shelx_string"]
+    qbad = [b for st in ("r3c", "cocrystal") for b in run_history(qonly, st, from_file=False)]
+    ctx.record("queries only (%d queries, two structures): every answer equals a fresh crystal's, repeats are equal, cell / space group (operation list in order) / asymmetric unit untouched" % len(qonly),
+               "holds" if not qbad else "counterexample", nontrivial=True, method="history executed on the real code")
+    if qbad:
+        ctx.violation("hist:queries-only", "a history of read-only queries: %s" % qbad[0], {"history": qonly, "from_file": False, "structures": ["r3c", "cocrystal"]}, replay_history)
 
     kmax = 4 if ctx.tier == "quick" else 6
     found = []
